@@ -70,7 +70,7 @@ def gen_scenario(rng, tier, prepop_kinds=()):
         for _ in range(rng.randint(1, 3)):
             t = rng.randrange(ntor)
             f = rng.randrange(len(torrents[t]["tree"]["files"]))
-            decoys.append({"torrent": t, "file": f, "kind": rng.choice(["same-size", "same-size", "diff-size"]),
+            decoys.append({"torrent": t, "file": f, "kind": rng.choice(["same-size", "same-size", "diff-size", "same-size-prefix"]),
                            "cseed": rng.randrange(1 << 30), "dir": rng.randrange(nsearch)})
     prepop = []
     for kind in prepop_kinds:
@@ -171,6 +171,15 @@ def build_world(case, scratch):
         if size == 0:
             continue
         data = content(d["cseed"], size)
+        if d["kind"] == "same-size-prefix":
+            # same name, same size, identical beginning (one byte / up to the next piece boundary / one more piece),
+            # every later byte different: "a same-named file with different content" that a first-piece check accepts
+            good = content(f[2], f[1])
+            keep = min(len(good) - 1, max(1, d["cseed"] % 3 * pl + (d["cseed"] >> 3) % pl))
+            data = good[:keep] + bytes((b % 255) + 1 for b in good[keep:])
+            size = len(data)
+            if len(good) < 2:
+                continue
         if d["kind"] == "same-size" and data == content(f[2], f[1]):
             data = bytes([(data[0] % 255) + 1]) + data[1:]      # a decoy must differ (1-byte files collide 1 in 255)
         sd = world["search"][d["dir"]]
@@ -178,8 +187,10 @@ def build_world(case, scratch):
         os.makedirs(os.path.dirname(target), exist_ok=True)
         with open(target, "wb") as fd:
             fd.write(data)
-        if d["kind"] == "same-size":
+        if d["kind"] in ("same-size", "same-size-prefix"):
             world["decoy_digests"][hashlib.sha256(data).hexdigest()] = target
+        if d["kind"] == "same-size-prefix":
+            world["prefix_decoys"] = world.get("prefix_decoys", 0) + 1
     if case["junk"]:
         for sd in world["search"]:
             for j in rng.sample(JUNK, 2):
@@ -291,13 +302,13 @@ def partial_slice_model(meta, world, pl):
     when (a) its bytes are those of another search-directory file of the same base name and size and (b) it agrees
     with the genuine file on the slice of the file that lies in the first piece containing it - the only slice the
     matcher verified before copying the whole candidate and marking the file as done."""
-    if meta["version"] != 1 or meta["tree"]["single"]:
+    if meta["version"] != 1:
         return [], False
     wrong, explained = [], True
     offset = 0
     for full, length, *_ in listed_files(meta):
         rel = os.path.relpath(full, meta["tree"]["name"])
-        op = os.path.join(meta["root"], rel)
+        op = meta["root"] if meta["tree"]["single"] else os.path.join(meta["root"], rel)
         dp = os.path.join(world["dest"], full)
         start = offset
         offset += length
@@ -311,7 +322,7 @@ def partial_slice_model(meta, world, pl):
             continue
         first = min(length, pl - start % pl)
         is_copy = hashlib.sha256(got).hexdigest() in world["search_files"].get(os.path.basename(full), set())
-        ok = is_copy and len(got) == length and first < pl and got[:first] == orig[:first]
+        ok = is_copy and len(got) == length and got[:first] == orig[:first]
         wrong.append({"file": full, "first_slice_bytes": first, "explained": ok})
         explained &= ok
     return wrong, bool(wrong) and explained
@@ -454,6 +465,8 @@ class C13:
             counters["edited_metafile_cases"] = 1
         if any(t["tree"]["layout"] == "utf8hash" for t in case["torrents"]):
             counters["utf8_valid_hash_cases"] = 1
+        if world.get("prefix_decoys"):
+            counters["prefix_decoy_cases"] = 1
         sizes = [f[1] for t in case["torrents"] for f in t["tree"]["files"]]
         if any(s and s % pl == 0 for s in sizes):
             counters["boundary_cases"] = 1
